@@ -4,6 +4,7 @@ CONSTANTS
   ReadOps = {"ws.get", "group.get", "object.get", "data.get", "pgroup.get", "type.get"}
   WriteOps = {"ws.get", "ws.set", "ws.create", "ws.remove", "ws.copy", "ws.save", "ws.call", "group.get", "group.set", "group.create", "group.remove", "group.copy", "group.save", "group.call", "object.get", "object.set", "object.create", "object.remove", "object.copy", "object.save", "object.call", "data.get", "data.set", "data.create", "data.remove", "data.copy", "data.save", "data.call", "pgroup.get", "pgroup.set", "pgroup.create", "pgroup.remove", "pgroup.copy", "pgroup.save", "pgroup.call", "type.get", "type.set", "type.create", "type.remove", "type.copy", "type.save", "type.call"}
   ProbeOps = {"ws.get", "ws.set", "ws.create", "ws.remove", "ws.copy", "ws.save", "ws.call", "group.get", "group.set", "group.create", "group.remove", "group.copy", "group.save", "group.call", "object.get", "object.set", "object.create", "object.remove", "object.copy", "object.save", "object.call", "data.get", "data.set", "data.create", "data.remove", "data.copy", "data.save", "data.call", "pgroup.get", "pgroup.set", "pgroup.create", "pgroup.remove", "pgroup.copy", "pgroup.save", "pgroup.call", "type.get", "type.set", "type.create", "type.remove", "type.copy", "type.save", "type.call"}
+  RepeatOps = {"ws.set", "group.set", "object.set", "data.set", "pgroup.set", "type.set"}
   Helpers = {"read_ui_json", "input_file", "input_file_ws", "path2workspace", "monitored_copy"}
   MaxVersion = 5
   MaxDepth = 5
@@ -14,6 +15,7 @@ INVARIANT TypeOK
 PROPERTY ReadOnlyFrozen
 PROPERTY ClosedFrozen
 PROPERTY WritesRefused
+PROPERTY RepeatRefused
 PROPERTY ReadsWork
 PROPERTY HelpersPreserveSource
 PROPERTY NoSilentUpgrade
